@@ -418,9 +418,10 @@ def run_property(pid, tier, flags, only, scratch, t0, seed, evidence_path):
     known = [k for k in load_known() if k.get('property') == pid and k.get('status') == 'known']
     expected_file = os.path.join(specdir, 'expected.json')
     # (preconditions of replaced callees exist per call site of the code under test: not part of the expected set;
+    #  the same holds for the 'C:' assertions inside hand-expanded callee contracts;
     #  loop obligations exist per loop of the code under test - a loop that lost its contract is caught by the loop census)
     keys = sorted(set(o['key'] for o in ledger if o['cls'] not in ('memory-safety', 'frame', 'unwinding', 'loop')
-                      and '.precondition.' not in o['key']))
+                      and '.precondition.' not in o['key'] and not o['description'].startswith('C: ')))
     if '--bless' in flags:
         if errors:
             print('cannot bless: errors', [(r['name'], r['error']) for r in errors])
